@@ -111,6 +111,8 @@ def arith(op: str, a, b):
         if r is not None:
             return r()
     za, zb = num(_unfrac(a)), num(_unfrac(b))
+    if za.sort() != zb.sort() or op == "/":
+        za, zb = to_real(za), to_real(zb)
     if op == "+":
         return za + zb
     if op == "-":
@@ -118,7 +120,7 @@ def arith(op: str, a, b):
     if op == "*":
         return za * zb
     if op == "/":
-        return z3.ToReal(za) / z3.ToReal(zb) if (z3.is_int(za) or z3.is_int(zb)) else za / zb
+        return za / zb
     if op == "//":
         if z3.is_int(za) and z3.is_int(zb):
             # Python floor division == z3 div for positive divisor; for negative divisor adjust
@@ -182,8 +184,12 @@ def py_int(v):
     raise OutOfSubset(f"int() of {v!r}")
 
 
-def py_round(v, fresh):
-    """round(x) to an integer: some integer r with |r - x| <= 1/2 (covers banker's rounding)."""
+PYROUND = z3.Function("pyround", z3.RealSort(), z3.IntSort())
+
+
+def py_round(v, fresh=None):
+    """round(x) to an integer: a deterministic function `pyround` with |pyround(x) - x| <= 1/2 (covers banker's
+    rounding; two calls on equal arguments give equal results)."""
     if isinstance(v, Fraction):
         return round(v), []
     if isinstance(v, (int, float)) and not isinstance(v, bool):
@@ -191,11 +197,9 @@ def py_round(v, fresh):
     if z3.is_expr(v) and z3.is_int(v):
         return v, []
     if z3.is_expr(v) and z3.is_real(v):
-        r = fresh("round", z3.IntSort())
+        r = PYROUND(v)
         two = z3.RealVal(2)
-        ax = [two * (z3.ToReal(r) - v) <= 1, two * (v - z3.ToReal(r)) <= 1,
-              # ties are resolved to an integer; non-ties are the unique nearest integer (implied)
-              ]
+        ax = [two * (z3.ToReal(r) - v) <= 1, two * (v - z3.ToReal(r)) <= 1]
         return r, ax
     raise OutOfSubset(f"round() of {v!r}")
 
@@ -277,6 +281,17 @@ def same_kind_eq(state, a, b):
             return z3.And(*[to_z3(c) for c in cs])
         if a.oid == b.oid:
             return True
+        if isinstance(oa, ListObj) and isinstance(ob, ListObj):
+            from .seqs import as_symlist
+            la, ga = as_symlist(state, oa)
+            lb, gb = as_symlist(state, ob)
+            conc = oa if oa.concrete else (ob if ob.concrete else None)
+            if conc is not None:
+                n = len(conc.items)
+                return z3.And(la == lb, *[to_z3(same_kind_eq(state, ga(z3.IntVal(k)), gb(z3.IntVal(k)))) for k in range(n)])
+            from .values import fresh_name
+            j = z3.Int(fresh_name("eqj"))
+            return z3.And(la == lb, z3.ForAll([j], z3.Implies(z3.And(j >= 0, j < la), to_z3(same_kind_eq(state, ga(j), gb(j))))))
         raise OutOfSubset("equality of symbolic containers")
     if isinstance(a, ClassVal) and isinstance(b, ClassVal):
         return a.name == b.name
